@@ -34,7 +34,7 @@ def _filler(n, dtype):
     return f.astype(dtype)
 
 
-HISTORIES = ("none", "refill", "hash_twin", "bytes_twin", "dtype_twin", "repeat", "scribble", "alias", "debuglog", "dashO", "threads",
+HISTORIES = ("none", "refill", "hash_twin", "bytes_twin", "dtype_twin", "repeat", "scribble", "options", "alias", "debuglog", "dashO", "threads",
              "preempt")
 
 
@@ -59,8 +59,8 @@ def decorate(case, rng, allow_dash_o=True, allow_threads=False):
         return case
     case["layout"] = ",".join(pick_layout(rng) + ("!" if rng.random() < 0.15 else "") for _ in range(3))     # "!": read-only
     r = rng.random()
-    table = [(0.44, "none"), (0.14, "refill"), (0.04, "hash_twin"), (0.04, "bytes_twin"), (0.04, "dtype_twin"),
-             (0.04, "repeat"), (0.04, "scribble"), (0.05, "alias"), (0.04, "debuglog"), (0.04, "dashO"), (0.05, "threads"), (0.04, "preempt")]
+    table = [(0.40, "none"), (0.14, "refill"), (0.04, "hash_twin"), (0.04, "bytes_twin"), (0.04, "dtype_twin"),
+             (0.04, "repeat"), (0.04, "scribble"), (0.04, "options"), (0.05, "alias"), (0.04, "debuglog"), (0.04, "dashO"), (0.05, "threads"), (0.04, "preempt")]
     h, acc = "none", 0.0
     for p, name in table:
         acc += p
@@ -126,6 +126,10 @@ def run_with_history(run_impl, case):
         if h in ("none", "dashO", "threads", "preempt", "alias"):
             begin(case, 0)
             return run_impl(case)
+        if h == "options":
+            options_prelude()
+            begin(case, 0)
+            return run_impl(case)
         begin(case, 1)
         rec = _ResultRecorder() if h == "scribble" else None
         try:
@@ -143,6 +147,48 @@ def run_with_history(run_impl, case):
         return run_impl(case)
     finally:
         end()
+
+
+def options_prelude():
+    """history `options`: earlier in the same process the application used the library on another series with NON-default
+    values of the optional / pass-through arguments (a periodic or weighted spline, a periodic linear interpolation, fill
+    values, other rules / exponents / strategies / window parameters).  None of that may stick: the case that follows
+    must give what it gives alone."""
+    import warnings
+    x = np.arange(8.0)
+    y = np.array([1.0, 3.0, 2.0, 5.0, 4.0, 2.0, 3.0, 1.0])
+    g = np.linspace(0.0, 7.0, 15)
+    try:
+        from traffic_weaver import process, Weaver
+        from traffic_weaver import rfa as _rfa
+    except Exception:  # noqa
+        return
+    calls = [
+        lambda: process.interpolate(x, y, g, method="spline", s=0, per=True),
+        lambda: process.interpolate(x, y, g, method="spline", w=np.full(8, 2.0), s=1.0, k=2),
+        lambda: process.interpolate(x, y, g, method="cubic", bc_type="periodic"),
+        lambda: process.interpolate(x, y, g, method="linear", period=7.0),
+        lambda: process.interpolate(x, y, g - 1.0, method="linear", left=-1.0, right=-2.0),
+        lambda: process.interpolate(x, y, g - 1.0, method="constant", left=-5.0),
+        lambda: Weaver(x, y).interpolate(n=15, method="spline", s=0, per=True),
+        lambda: Weaver(x, y).interpolate(n=15, method="cubic", bc_type="clamped"),
+        lambda: Weaver(x, y).recreate_from_average(3, rfa_class=_rfa.ExpFixedRFA, alpha=0.5, beta=0.25, exp=3.0)
+                            .integral_match(alpha=3.0, fixed_points_finding_strategy="higher",
+                                            target_function_integral_method="rectangle",
+                                            reference_function_integral_method="trapezoid"),
+        lambda: Weaver(x, y).recreate_from_average(4, rfa_class=_rfa.LinearAdaptiveRFA, a=3, adaptive_smooth=0.5),
+        lambda: process.truncate(x, y, 0.25, 0.75, x_left_as_ratio=True, x_right_as_ratio=True),
+        lambda: process.trend(x, y, lambda t: 2.0 * t, normalized=True),
+        lambda: process.normalize(y, -3.0, 9.0),
+        lambda: process.spline_smooth(x, y, s=2.0),
+    ]
+    with warnings.catch_warnings():
+        warnings.simplefilter("ignore")
+        for f in calls:
+            try:
+                f()
+            except Exception:  # noqa: whether the pinned code accepts an option is not the point
+                pass
 
 
 class _ResultRecorder:
